@@ -185,6 +185,7 @@ const (
 type write struct {
 	op      world.Op
 	restore bool // snapshot + restore instead of a command
+	old     bool // with restore: the snapshot is the one taken right after the seed (the data goes back in time)
 	acl     bool // changes the subscribers' token
 }
 
@@ -197,6 +198,8 @@ type scenario struct {
 
 	once *sync.Once
 	base *world.World
+	// oldSnap: snapshot of the seed state
+	oldSnap []byte
 }
 
 type commitRec struct {
@@ -236,6 +239,10 @@ type exec struct {
 	stuck map[int]string
 	// cloneOnly: an alarm on the forked store that a fresh replay of the same schedule did not reproduce
 	cloneOnly bool
+	// drainsDone counts completed publications; preRestorePending: a snapshot older than the current state was
+	// restored while batches of earlier commits were still unpublished (they are published into the new topic buffers)
+	drainsDone        int
+	preRestorePending bool
 	// lockLevel: the steps run as threads under the lock-level scheduler; every subscriber consumes for itself
 	lockLevel bool
 }
@@ -257,6 +264,11 @@ func newExec(sc *scenario, fresh bool) *exec {
 		sc.once.Do(func() {
 			sc.base = world.New()
 			sc.base.ApplyAll(sc.seed)
+			b, err := sc.base.Persist()
+			if err != nil {
+				panic(err)
+			}
+			sc.oldSnap = b
 		})
 		w = sc.base.Fork()
 	}
@@ -292,6 +304,9 @@ func (e *exec) record(kind string) {
 
 // sigFor appends the query-index classification for subscriber i.
 func (e *exec) sigFor(i int, sig string) string {
+	if e.preRestorePending {
+		sig += ":batches-unpublished-at-restore-of-an-older-snapshot"
+	}
 	if k, ok := e.stuck[i]; ok {
 		return sig + ":store-query-index-did-not-advance-after=" + k
 	}
@@ -347,6 +362,23 @@ func (e *exec) step(a string) {
 			if err != nil {
 				panic(err)
 			}
+			if wr.old {
+				e.trace[len(e.trace)-1] = "restore(snapshot of the seed state)"
+				sc := e.sc
+				sc.once.Do(func() {})
+				if sc.oldSnap == nil {
+					// fresh mode before any fork: take it from a replay of the seed
+					w0 := world.New()
+					w0.ApplyAll(sc.seed)
+					if sc.oldSnap, err = w0.Persist(); err != nil {
+						panic(err)
+					}
+				}
+				b = sc.oldSnap
+				if e.w.Rec.NumBatches() > e.drainsDone {
+					e.preRestorePending = true
+				}
+			}
 			if err := e.w.RestoreFrom(b); err != nil {
 				panic(err)
 			}
@@ -389,6 +421,7 @@ func (e *exec) step(a string) {
 		if !e.pub.VerifDrainOne() {
 			panic("drain with empty queue")
 		}
+		e.drainsDone++
 		if e.lockLevel {
 			return
 		}
@@ -693,7 +726,9 @@ func Run(c *ev.Ctx) {
 	label := func(ws []write) string {
 		var l []string
 		for _, w := range ws {
-			if w.restore {
+			if w.restore && w.old {
+				l = append(l, "restore-old-snapshot")
+			} else if w.restore {
 				l = append(l, "restore")
 			} else {
 				l = append(l, w.op.Name)
@@ -790,7 +825,8 @@ func Run(c *ev.Ctx) {
 	}
 
 	// forced resubscription: a token/policy change or a restore between ordinary writes
-	for _, special := range []write{aclWrite, policyWrite, restore} {
+	restoreOld := write{restore: true, old: true}
+	for _, special := range []write{aclWrite, policyWrite, restore, restoreOld} {
 		for _, w1 := range []write{catalog[0], catalog[5], catalog[9]} {
 			for _, order := range [][]write{{special, w1}, {w1, special}, {w1, special, catalog[2]}} {
 				for _, ps := range progSets {
